@@ -5,6 +5,7 @@ mod corpus;
 mod gen;
 mod hash;
 mod leb;
+mod memo;
 mod msg;
 mod native;
 mod principal;
